@@ -632,8 +632,24 @@ func (m *MonC06) OnEnd(w *World) []Violation {
 			}
 			sort.Strings(list)
 			for _, rid := range list {
+				// pendingOnly: the client's subscribe was outstanding at the trigger and
+				// later succeeded; the gateway already held the direct subscription
+				// (decision-time validity, DESIGN 3.6). Judged for the leak window only.
+				// (A resource response creates its subscription only when the call is
+				// answered, which the client cannot date; not covered.)
+				pendingOnly := false
 				if directAt(c, rid, tr.T) <= 0 {
-					continue
+					for _, id := range c.Ref.ReqOrder {
+						q := c.Ref.Reqs[id]
+						if q.SentT < tr.T && q.Resp > 0 && q.RespT > tr.T && !q.IsError && !q.Dup &&
+							q.Action == "subscribe" && q.RID == rid {
+							pendingOnly = true
+						}
+					}
+					if !pendingOnly {
+						continue
+					}
+					m.class("trigger_while_subscribe_outstanding")
 				}
 				// a direct subscription whose resource failed to load is an error
 				// placeholder: there is nothing to protect and no events to hold back
@@ -686,6 +702,10 @@ func (m *MonC06) OnEnd(w *World) []Violation {
 						closedT = e.T
 						break
 					}
+				}
+				if rq == nil && pendingOnly {
+					m.class("obligation_void")
+					continue
 				}
 				if rq == nil {
 					if closedT >= 0 || (zeroT >= 0 && zeroKind != "unsubev") || w.mq.PendingCount() > 0 {
@@ -772,6 +792,9 @@ func (m *MonC06) OnEnd(w *World) []Violation {
 						m.class("events_inside_recheck_window")
 						break
 					}
+				}
+				if pendingOnly {
+					continue
 				}
 				if !(ans.HasRes && ans.Get) {
 					m.class("verdict_denial")
